@@ -9,7 +9,7 @@ use serde_json::{json, Value as J};
 fn run_print(expr: &str) -> (String, String, bool) {
     // returns (printed text, error kind, panicked)
     let mut s = Sess::new(false, false);
-    for l in ["X = 2.5", "S$ = \"B\"", "QN = -8 ^ .5", "QP = 0 ^ -1", "QM = -QP"] {
+    for l in ["X = 2.5", "S$ = \"B\"", "QN = -8 ^ .5", "QP = 0 ^ -1", "QM = -QP", "1 DATA 5", "READ R5$"] {
         s.apply(&call_submit(l));
     }
     let ev = s.apply(&call_submit(&format!("PRINT {}", expr)));
